@@ -6,10 +6,10 @@ from typing import Any, Dict, List, Optional
 from ..core import Ctx
 from .. import outputcrawl as oc
 
-THEOREMS = ["Privacy.hidden_inherits", "Output.hidden_inherits", "Output.hidden_inside", "Output.no_trace",
-            "Output.no_trace_links", "Output.no_trace_files", "Output.private_marked", "Output.public_unmarked",
-            "Output.no_trace_partial", "Output.no_trace_counterexample_root", "Output.no_trace_texts_partial",
-            "Output.no_trace_texts_counterexample", "Output.no_trace_counterexample_old"]
+THEOREMS = ["Privacy.hidden_inherits", "Output.hidden_inherits", "Output.hidden_inside", "Output.entry_visible",
+            "Output.no_trace", "Output.no_trace_links", "Output.no_trace_files", "Output.private_marked",
+            "Output.public_unmarked", "Output.no_trace_texts_partial", "Output.no_trace_texts_counterexample",
+            "Output.no_trace_counterexample_old", "Output.no_trace_counterexample_root_old"]
 RULE = ("same runs as C11 (scenario projects: hidden base of a visible class, hidden module imported from, hidden member "
         "overridden and cross-referenced, private objects at every level and by rule, hidden roots, hidden nested classes "
         "and constructors, hidden class between a class and its base; plus random Gen projects) under random lists of "
@@ -28,18 +28,15 @@ ASSUMPTIONS = [
     "zope.interface 'from' notes and extension-provided extra_info are not generated (unguarded in the code, see notes)",
 ]
 PARTIAL = {
-    "Output.no_trace": "full for every producer row: a mention of an object that is not visible is never a hyperlink and can only "
-                       "be one of the two root rows (moduleIndex.html, index.html), which are written for a hidden root with its "
-                       "name as plain text",
-    "Output.no_trace_partial": "all mentions, under: no root is hidden (counterexample: no_trace_counterexample_root; open finding)",
     "Output.no_trace_texts_partial": "the unlinked root nodes of classIndex.html, under: no listed class has an invisible base or an "
                                      "unresolved base expression naming an invisible object (counterexample: "
-                                     "no_trace_texts_counterexample; open finding)",
+                                     "no_trace_texts_counterexample; open finding hidden-trace:classindex-root-name). "
+                                     "Output.no_trace itself is full: all 28 producer rows, no hypothesis.",
 }
 EXPLANATION = ("The producer table of DESIGN C12 is a Lean function from the object table to the list of taglink requests and listing "
                "entries; `taglinkGuard` models the visibility guard inside taglink (aaed9bd). No hyperlink targets an invisible "
-               "object, whatever the row; the only remaining mentions of hidden objects are index rows that show a name as text "
-               "(roots of moduleIndex.html / index.html, unlinked base nodes of classIndex.html): open findings.")
+               "object, whatever the row, and every listing element is written for a visible object only (root rows since 4b6324b); "
+               "the only remaining mention of a hidden object is the unlinked base node of classIndex.html: open finding.")
 
 LISTING_NAMES = {"table": "member-table", "detail": "member-details", "sidebar": "sidebar", "sidebar-inherited": "sidebar",
                  "modindex": "module-index", "alldocs": "all-documents"}
